@@ -225,6 +225,9 @@ func tagsOf(steps []step, extra ...string) string {
 			if s.hdr.via == 1 {
 				set["dispatcher"] = true
 			}
+			if s.hdr.via == 2 {
+				set["no-tx-timestamp"] = true
+			}
 			if s.hdr.ulen != 0 {
 				set[[]string{"", "udplen-0", "udplen-8", "udplen-56", "udplen-tiny"}[s.hdr.ulen%5]] = true
 			}
@@ -718,7 +721,7 @@ func genRaw(r *lib.Rng, underlay uint16) []step {
 		for {
 			h := genHdr(r)
 			if h.pathType != 2 {
-				h.ext, h.fwd, h.udpDst, h.underlay, h.spao = 0, 0, scionPort, underlay, 0
+				h.ext, h.fwd, h.udpDst, h.underlay, h.spao, h.ulen = 0, 0, scionPort, underlay, 0, 0
 				if len(h.srcRaw)%12 != 4 || len(h.dstRaw)%12 != 4 {
 					continue
 				}
@@ -756,7 +759,18 @@ func genRaw(r *lib.Rng, underlay uint16) []step {
 				s.data = b
 			}
 		case 7, 8: // SCMP echo / traceroute request: answered with SCMP, never with NTP
-			b, err := buildSCMP(reversible(), uint8(lib.Pick(r, 128, 130)), r.Bytes(lib.Pick(r, 4, 20, 60)))
+			h := reversible()
+			body := r.Bytes(lib.Pick(r, 4, 20, 60))
+			if r.Bool() {
+				// right after a UDP packet with the same header that the goroutine dropped (a server-mode
+				// payload; no sentinel in between), and with an NTP client header as echo data, which then lies where the UDP
+				// layer's payload was: whatever the decoder still holds from the UDP packet, the answer
+				// is one SCMP message and nothing else
+				hc := *h
+				s.hdr = &hc // (a raw step with a full header: runSCION sends the dropped UDP packet first)
+				body = append(r.Bytes(4), header(r, lib.Pick(r, validFirst...), 3)...)
+			}
+			b, err := buildSCMP(h, uint8(lib.Pick(r, 128, 130)), body)
 			if err == nil {
 				s.data, s.a = b, rawSCMPReq
 			}
@@ -791,6 +805,8 @@ func child(a lib.Args) {
 			switch c[0] {
 			case "ip":
 				d.runIP(c[1], stepsFromArgs(c[2]), r)
+			case "ip.hwts":
+				d.runIPTo("ip.hwts", d.hwIP, c[1], stepsFromArgs(c[2]), r)
 			case "scion", "scion.onehop":
 				steps := stepsFromArgs(c[2])
 				okAll := true
@@ -929,6 +945,24 @@ func child(a lib.Args) {
 		for _, steps := range sizedSteps(r, total, false) {
 			d.runIP(tagsOf(steps, "nts", "nts-size"), steps, r)
 		}
+	}
+	// 4d. listeners that never get a transmit timestamp back (configured with an interface):
+	// they log the failure and go on; every well-formed request is still answered
+	nHw := 120
+	if thorough {
+		nHw = 2500
+	}
+	for i := 0; i < nHw && !d.lost; i++ {
+		steps := genHistory(r, 2+r.Intn(7), false)
+		if i%4 == 0 {
+			steps = genNTSThenPlain(r, false, 12)
+		}
+		d.runIPTo("ip.hwts", d.hwIP, tagsOf(steps, "history", "no-tx-timestamp"), steps, r)
+		steps = genHistory(r, 2+r.Intn(6), true)
+		for j := range steps {
+			steps[j].hdr.via = 2
+		}
+		d.runSCION(tagsOf(steps, "history"), steps, r)
 	}
 	// 5. histories
 	nHist := 1000
